@@ -32,11 +32,13 @@ import (
 	"math"
 	"os"
 	"os/exec"
+	"path/filepath"
 	"runtime"
 	"runtime/debug"
 	"sort"
 	"strings"
 	"sync"
+	"sync/atomic"
 	"syscall"
 	"time"
 
@@ -460,6 +462,10 @@ func (w *c05Worker) kill() {
 	w.cmd.Wait()
 }
 
+var c05Timeouts int32
+
+const c05MaxTimeouts = 120
+
 type c05Done struct {
 	c      Case
 	obs    *c05Obs
@@ -535,6 +541,11 @@ func c05Pool(cases []Case, handle func(d c05Done)) {
 				}
 			}()
 			for c := range jobs {
+				if atomic.LoadInt32(&c05Timeouts) > c05MaxTimeouts {
+					// enough hangs to report: the rest of the run would be spent waiting for watchdogs
+					results <- c05Done{c: c, fail: "skipped"}
+					continue
+				}
 				if w == nil {
 					var err error
 					if w, err = c05Start(); err != nil {
@@ -595,6 +606,7 @@ func c05Pool(cases []Case, handle func(d c05Done)) {
 					w.stdin.Close()
 					w.cmd.Process.Kill()
 					w = nil
+					atomic.AddInt32(&c05Timeouts, 1)
 					results <- c05Done{c: c, fail: "timeout:" + c05BusyFrame(st), detail: fmt.Sprintf("no result within %v", limit)}
 				}
 			}
@@ -639,6 +651,26 @@ func c05Describe(c Case) string {
 			}
 			return fmt.Sprintf("%s %q", k, b)
 		}
+	}
+	if toks := c.list("toks"); toks != nil {
+		var b strings.Builder
+		b.WriteString("tokens [")
+		for i, e := range toks {
+			a := e.([]interface{})
+			if i > 0 {
+				b.WriteByte(' ')
+			}
+			if i >= 24 {
+				b.WriteString("...")
+				break
+			}
+			fmt.Fprintf(&b, "%d", int(a[0].(float64)))
+			if v := unhex(a[1].(string)); v != "" {
+				fmt.Fprintf(&b, ":%q", v)
+			}
+		}
+		b.WriteString("]")
+		return b.String()
 	}
 	return c.str("stream")
 }
@@ -690,6 +722,10 @@ func runC05(casesPath string, res *Result) {
 		}
 		nontrivial := stream != "tokens" || len(c.list("toks")) >= 6
 		res.count(c05Key(c), nontrivial)
+		if d.fail == "skipped" {
+			res.Hist["skipped-after-many-timeouts"]++
+			return
+		}
 		if d.fail != "" {
 			cls := d.fail
 			res.Hist["fail:"+strings.SplitN(cls, ":", 2)[0]]++
@@ -782,10 +818,47 @@ func c05JudgeTokens(c Case, o *c05Obs, res *Result, exact, noexact, srcSame *int
 	}
 }
 
-// known-finding classes (KNOWN_FINDINGS.txt lists them; bin/check turns an unlisted class back into a violation)
+// known-finding classes: a failure class is attributed to a known finding only when KNOWN_FINDINGS.txt lists
+// `finding: property=C05 class=c05:<class> ...`; everything else is a failure of the property
+var c05Listed map[string]bool
+
 func c05Known(class string) string {
-	cl := strings.NewReplacer(" ", "", "/", "-").Replace(class)
-	return "c05:" + cl
+	if c05Listed == nil {
+		c05Listed = map[string]bool{}
+		dirs := []string{os.Getenv("VERIF_DIR"), "."}
+		if exe, err := os.Executable(); err == nil {
+			d := exe
+			for i := 0; i < 5; i++ {
+				d = filepath.Dir(d)
+				dirs = append(dirs, d)
+			}
+		}
+		for _, d := range dirs {
+			if d == "" {
+				continue
+			}
+			b, err := os.ReadFile(filepath.Join(d, "KNOWN_FINDINGS.txt"))
+			if err != nil {
+				continue
+			}
+			for _, l := range strings.Split(string(b), "\n") {
+				l = strings.TrimSpace(l)
+				if strings.HasPrefix(l, "finding:") && strings.Contains(l, "property=C05") {
+					for _, w := range strings.Fields(l) {
+						if strings.HasPrefix(w, "class=") {
+							c05Listed[strings.TrimPrefix(w, "class=")] = true
+						}
+					}
+				}
+			}
+			break
+		}
+	}
+	cl := "c05:" + strings.NewReplacer(" ", "", "/", "-").Replace(class)
+	if c05Listed[cl] {
+		return cl
+	}
+	return ""
 }
 
 // recipes: sources too long to travel as hex are built here from a short description
